@@ -1,6 +1,21 @@
-"""Per-property table of sub-checks (engine, build mode, shards, thresholds). See DESIGN.md 3."""
+"""Per-property table of sub-checks (engine, build mode, shards, thresholds). See DESIGN.md 3.
+
+Fields of a sub-check:
+  engine   name registered in harness/cmd/vh
+  mode     plain | vt | race        (build mode, DESIGN 2.1)
+  shards   {tier: processes}        cases are striped over the shards
+  reps     {tier: n}                repeat the whole sub-check n times with derived seeds (race runs)
+  tiers    which tiers run it (default both)
+  gomaxprocs, ulimit_kb, timeout {tier: s}, env
+  min_nontrivial {tier: n}          observation threshold (below it the run is inconclusive)
+  require_stats {name: min}         boundary/hook hit counters that must be reached
+  hang_is_violation                 a watchdog kill is confirmed on the single case and then counts
+"""
 
 Q, T = "quick", "thorough"
+
+TRUSTED = ("Go runtime and compiler; the harness itself (generators, oracles, strict parser); "
+           "fasthttp as the transport the code under test is built on")
 
 PROPS = {
     "SMOKE": {
@@ -11,6 +26,52 @@ PROPS = {
             {"engine": "smoke", "mode": "plain", "shards": {Q: 2, T: 2}},
             {"engine": "smoke", "mode": "vt", "shards": {Q: 2, T: 2}},
             {"engine": "smoke", "mode": "race", "shards": {Q: 1, T: 1}},
+        ],
+    },
+    "C01": {
+        "level": "exploration",
+        "technique": "runtime monitor: solo-differential oracle over generated route tables (real dispatch vs registration-order filter of routes observed alone)",
+        "level_text": "Generated route tables (methods, Use prefixes, groups, Route chains, duplicates, path/method-overriding handlers) are dispatched through App.Handler(); the handler trace, status and Allow set of every request are compared with the registration-order composition of per-route match decisions observed on singleton apps built by the same API call. Held on the sampled tables/requests/configs; not a proof.",
+        "level_note": TRUSTED + "; per-route decisions are observed on the real router in isolation, so a defect that changes a route's behaviour identically alone and in company is invisible here (C02/C03 judge single routes).",
+        "rule": "case = (config, route table of 1-14 API calls, 40-60 requests); non-trivial = expected trace has >=2 handlers, or path <=3 bytes (index boundary), or a path/method override fires, or the answer is 405; distinct by (config, expected trace, method, path, status)",
+        "subs": [
+            {"engine": "route.dispatch", "mode": "plain", "shards": {Q: 16, T: 16},
+             "min_nontrivial": {Q: 2000, T: 100000}, "require_stats": {"overrides": 100, "status405": 100}},
+        ],
+    },
+    "C02": {
+        "level": "exploration",
+        "technique": "runtime monitor: in-handler invariant (Params reproduce the path, constraints hold) over generated patterns and hostile paths",
+        "level_text": "Patterns are generated as token lists (named/optional/greedy parameters, escaped literals, every built-in constraint and a custom one, up to two constraints per parameter); for every request that reaches the handler the monitor re-substitutes Params into the token list and evaluates each constraint with an independent three-valued evaluator written from the documentation; requests with violating values must get 404. Held on the sampled patterns/paths.",
+        "level_note": TRUSTED + "; constraint semantics where the documentation is silent (e.g. '+5' for int, 'inf' for float, non-ASCII letters for alpha) are treated as unknown and never asserted.",
+        "rule": "case = (pattern, config, 30-40 paths incl. the pattern text itself, valid fillings, one-value-violating fillings, mutations); non-trivial = request to a pattern with >=1 constrained parameter (handler ran, or correctly rejected); distinct by (pattern, path)",
+        "subs": [
+            {"engine": "route.sound", "mode": "plain", "shards": {Q: 16, T: 16},
+             "min_nontrivial": {Q: 20000, T: 400000}, "require_stats": {"ran": 1000, "not_run": 1000}},
+        ],
+    },
+    "C03": {
+        "level": "exploration",
+        "technique": "runtime monitor: by-construction oracle, bounded-exhaustive enumeration of delimited patterns x legal fillings x 8 configs, plus RoutePatternMatch-vs-dispatch differential",
+        "level_text": "All delimited patterns of up to 4 (quick) / 6 (thorough) items over a 10-item alphabet, all legal fillings over a 6-value alphabet and the 8 routing configurations are dispatched through a real app (so the 3-byte index is in the loop); match and captured values are known by construction; case, trailing-slash and percent variants and RoutePatternMatch are compared with the dispatch decision. Exhaustive for the bounded space, sampled beyond it (random patterns up to 10 items).",
+        "level_note": TRUSTED + "; the legality side-condition of the statement is implemented conservatively (overlapping and case-folded occurrences of a following literal also exclude a filling).",
+        "rule": "enumerated: every item string in the delimited class x every legal filling x 8 configs; random: patterns of 3-10 items x 6 fillings; non-trivial = pattern with >=1 parameter; distinct by (pattern, path, config)",
+        "exhaustive_stat": "route.complete.enum_space_complete",
+        "subs": [
+            {"engine": "route.complete", "mode": "plain", "shards": {Q: 16, T: 16},
+             "min_nontrivial": {Q: 100000, T: 300000}, "require_stats": {"enum_patterns": 1000},
+             "timeout": {Q: 600, T: 3000}},
+        ],
+    },
+    "C04": {
+        "level": "exploration",
+        "technique": "runtime monitor: differential between two real compositions (mounted sub-apps vs Group(prefix) registration; groups vs spelled-out paths)",
+        "level_text": "Generated trees of apps/groups (nesting <=3, <=4 mounts, prefixes '/', trailing slash, parameterised, routes added after mounting) are built twice from the same handler set - with Use(prefix, subApp) and with Group(prefix) at the same position - and answer the same requests; handler trace, every declared parameter, status and body must agree. Same for Group prefixes vs full paths. Held on the sampled trees/requests.",
+        "level_note": TRUSTED + "; both sides are the real framework, so a defect common to mounting and grouping is invisible here (C01-C03 judge routing itself).",
+        "rule": "case = (config, tree of <=14 route statements, 40-60 requests); non-trivial = request whose trace enters a mounted app (resp. a group); distinct by (case, method, path)",
+        "subs": [
+            {"engine": "route.mount", "mode": "plain", "shards": {Q: 16, T: 16},
+             "min_nontrivial": {Q: 1000, T: 50000}},
         ],
     },
 }
